@@ -123,3 +123,80 @@ package tlv
 //@   site call numLeadingZeroBytes64: assert arg(0) == val
 //@   site call PutUint64: assert arg(2) == val && arg(1) == subslice(sliceof(*buf), 0, 8)
 //@   nopanic
+//@
+//@ // ---- zero-annotation bounds sweep (tools/sweep_gen.py): index and slice expressions of these functions are in range; loops abstracted
+//@
+//@ func DUint8
+//@   props C10
+//@   loop * havoc
+//@   bounds-safe
+//@
+//@ func DUint16
+//@   props C10
+//@   loop * havoc
+//@   bounds-safe
+//@
+//@ func DUint32
+//@   props C10
+//@   loop * havoc
+//@   bounds-safe
+//@
+//@ func DUint64
+//@   props C10
+//@   loop * havoc
+//@   bounds-safe
+//@
+//@ func DBool
+//@   props C10
+//@   loop * havoc
+//@   bounds-safe
+//@
+//@ func DBytes32
+//@   props C10
+//@   loop * havoc
+//@   bounds-safe
+//@
+//@ func DBytes33
+//@   props C10
+//@   loop * havoc
+//@   bounds-safe
+//@
+//@ func DBytes64
+//@   props C10
+//@   loop * havoc
+//@   bounds-safe
+//@
+//@ func DPubKey
+//@   props C10
+//@   loop * havoc
+//@   bounds-safe
+//@
+//@ func DVarBytes
+//@   props C10
+//@   loop * havoc
+//@   bounds-safe
+//@
+//@ func DNOP
+//@   props C10
+//@   loop * havoc
+//@   bounds-safe
+//@
+//@ func SizeTUint16
+//@   props C10
+//@   loop * havoc
+//@   bounds-safe
+//@
+//@ func SizeTUint32
+//@   props C10
+//@   loop * havoc
+//@   bounds-safe
+//@
+//@ func SizeTUint64
+//@   props C10
+//@   loop * havoc
+//@   bounds-safe
+//@
+//@ func VarIntSize
+//@   props C10
+//@   loop * havoc
+//@   bounds-safe
